@@ -45,6 +45,9 @@ def score_np(name, x, c, nc, cats):
     s = np.where((xr[..., 0] > 0.9) if nc else False, np.inf, -np.sum((xr - 0.3) ** 2, axis=-1))
   elif name == 'neginf-almost-everywhere':
     s = np.where(np.all(np.abs(xr - 0.5) < 1e-3, axis=-1) if nc else False, 1.0, -np.inf)
+  elif name == 'cat-needle':
+    # one combination of categories scores 1, every other 0: only a prior point can know which
+    s = np.where(np.all(c[..., :len(cats)] == (np.array(cats) - 1), axis=-1), 1.0, 0.0) - 0.01 * np.sum((xr - 0.5) ** 2, axis=-1)
   elif name == 'needles':
     s = -np.sum((xr - FAR[:nc]) ** 2, axis=-1)
     s = np.where(np.sum((xr - NEEDLE_Q[:nc]) ** 2, axis=-1) < 1e-8, 5.0, s)
@@ -84,6 +87,8 @@ def make_score(name, nc, cats):
       s = jnp.where((xr[..., 0] > 0.9) if nc else False, jnp.inf, -jnp.sum((xr - 0.3) ** 2, axis=-1))
     elif name == 'neginf-almost-everywhere':
       s = jnp.where(jnp.all(jnp.abs(xr - 0.5) < 1e-3, axis=-1) if nc else False, 1.0, -jnp.inf)
+    elif name == 'cat-needle':
+      s = jnp.where(jnp.all(c[..., :len(cats)] == (jnp.array(cats) - 1), axis=-1), 1.0, 0.0) - 0.01 * jnp.sum((xr - 0.5) ** 2, axis=-1)
     elif name == 'needles':
       s = -jnp.sum((xr - FAR[:nc]) ** 2, axis=-1)
       s = jnp.where(jnp.sum((xr - NEEDLE_Q[:nc]) ** 2, axis=-1) < 1e-8, 5.0, s)
@@ -131,7 +136,7 @@ def shard(task):
       prior_trials = [vz.Trial(parameters={'x%d' % i: float(v) for i, v in enumerate(row)}) for row in pts]
       prior = types.ModelInput(continuous=types.PaddedArray.as_padded(pts), categorical=types.PaddedArray.as_padded(np.zeros((cfg['prior'], 0), dtype=types.INT_DTYPE)))
     elif cfg['prior']:
-      best = {'interior': 0.3, 'corner': 1.0, 'categorical': 0.5, 'plateau': 0.0, 'neginf-region': 0.0, 'constant': 0.5, 'posinf-region': 0.95, 'neginf-almost-everywhere': 0.5, 'needles': 0.3}[cfg['score']]
+      best = {'interior': 0.3, 'corner': 1.0, 'categorical': 0.5, 'plateau': 0.0, 'neginf-region': 0.0, 'constant': 0.5, 'posinf-region': 0.95, 'neginf-almost-everywhere': 0.5, 'needles': 0.3, 'cat-needle': 0.5}[cfg['score']]
       for k in range(cfg['prior']):
         params = {'x%d' % i: (best if k == 0 else 0.9 - 0.1 * k) for i in range(nc)}
         if cfg.get('prior_out') and k < 2:
@@ -283,6 +288,11 @@ def configs(quick, seed):
   for needle_at in ([(4, 5), (5, 4), (0, 1), (2, 0)] if quick else [(a, b) for a in range(7) for b in range(7) if a != b]):
     out.append({'layout': [2, []], 'pad': False, 'strategy': 'eagle', 'count': 3, 'batch': 25, 'evals': 500, 'prior': 30, 'needle_at': list(needle_at),
                 'n_parallel': None, 'score': 'needles', 'seed': seed + 1})
+  # a needle in a categorical space (3125 combinations, one of them good, given as a prior point), with and without continuous features
+  for layout in ((0, (5, 5, 5, 5, 5)), (1, (5, 5, 5, 5, 5))):
+    for pad in (False, True):
+      out.append({'layout': [layout[0], list(layout[1])], 'pad': pad, 'strategy': 'eagle', 'count': 3, 'batch': 5, 'evals': 50, 'prior': 3,
+                  'n_parallel': None, 'score': 'cat-needle', 'seed': seed + 1})
   # prior points lying outside the unit cube (trials of a wider space): the result must still be in bounds, with honest rewards
   for layout in ([LAYOUTS[4], LAYOUTS[5]] if quick else LAYOUTS[1:]):
     for strat in ('eagle', 'random'):
